@@ -127,7 +127,7 @@ def run(tier):
             return None
         r['tasks'][0]['nruns'] -= 1
         return r
-    common.binding_selftest('c14', 'C14_Data', recs, _corrupt)
+    common.binding_selftest('c14', 'C14_Data', [r for r in recs if r['id'] not in rejects], _corrupt)
     # ---- end to end: Pipeline.tla on real processes and files
     from . import pipeline
     p_ok = common.run_tlc('Pipeline', cfg='Pipeline.cfg' if tier == 'quick' else 'Pipeline_big.cfg',
